@@ -1336,7 +1336,7 @@ def check_C17(ctx):
                 was_enabled = b._last_len is not None
                 label, op, args = malformed_calls(rng, h)
                 if dyn and was_enabled and label in ('cube-late-undeclared', 'compose-unknown-node-2') \
-                        and rng.random() < 0.7:
+                        and len(univ) >= 2 and rng.random() < 0.7:
                     # make a request fire inside the valid part of the call, before it fails
                     h.s.op(0, 'set_last_len', 1)
                 ans = h.s.op(0, op, *args)
